@@ -30,17 +30,22 @@ def replay(w):
                     vals = [abs(flt(inp['lam']))] + vals          # the witness's own value first (it may be exactly 0)
                 if kind == 'type':
                     vals = [1, 2] if tag in INT_TAGS else [float(FORMS[tag](0.11)), float(FORMS[tag](0.37))]
-                for val in vals:
-                    ref = admm.admm_optimize_theta(S, float(val), W, N, max_iterations=25).theta
+                rhos = [1.0]
+                if kind == 'value':
+                    # the ADMM penalty of the witness (the Z-update obligation is for every rho > 0), and 2
+                    r0 = abs(flt(inp.get('rho', 1))) or 1.0
+                    rhos = sorted({1.0, 2.0, min(max(r0, 0.05), 20.0)})
+                for val, rho in [(v, r) for v in vals for r in rhos]:
+                    ref = admm.admm_optimize_theta(S, float(val), W, N, max_iterations=25, rho=rho).theta
                     if kind == 'value':
-                        got = admm.admm_optimize_theta(S, np.full((n, n), float(val)), W, N, max_iterations=25).theta
+                        got = admm.admm_optimize_theta(S, np.full((n, n), float(val)), W, N, max_iterations=25, rho=rho).theta
                         sig = 'scalar-vs-matrix-lambda-differ'
                     else:
                         got = admm.admm_optimize_theta(S, FORMS[nt['tag']](val), W, N, max_iterations=25).theta
                         sig = 'lambda-type-form-differs'
                     if not np.array_equal(np.asarray(got, float).view(np.uint64), np.asarray(ref, float).view(np.uint64)) if kind == 'type' else not np.allclose(got, ref, rtol=1e-9, atol=1e-12):
                         return {'reproduced': True, 'signature': sig,
-                                'observed': {'lambda': val, 'ref': np.asarray(ref).tolist(), 'got': np.asarray(got).tolist()}}
+                                'observed': {'lambda': val, 'rho': rho, 'ref': np.asarray(ref).tolist(), 'got': np.asarray(got).tolist()}}
                     worst = {'ref': np.asarray(ref).tolist(), 'got': np.asarray(got).tolist()}
             return {'reproduced': False, 'signature': None, 'observed': worst}
         if kind == 'beta':
